@@ -48,12 +48,23 @@ func faultDoc(t *rapid.T) map[string]any {
 		for j := 0; j < nn; j++ {
 			nested = append(nested, map[string]any{"v": float64(rapid.IntRange(0, 4).Draw(t, "v")), "w": rapid.SampledFrom([]string{"p", "q"}).Draw(t, "w")})
 		}
+		ntags := rapid.IntRange(0, 4).Draw(t, "ntags")
+		tags := []any{}
+		for j := 0; j < ntags; j++ {
+			tags = append(tags, rapid.SampledFrom([]string{"x", "y", "z"}).Draw(t, "tag"))
+		}
+		grid := []any{}
+		for j := 0; j < rapid.IntRange(1, 2).Draw(t, "ngrid"); j++ {
+			grid = append(grid, []any{float64(rapid.IntRange(0, 3).Draw(t, "g0")), float64(rapid.IntRange(0, 3).Draw(t, "g1"))})
+		}
 		rows = append(rows, map[string]any{
-			"id": float64(i + 1),
-			"a":  float64(rapid.IntRange(0, 4).Draw(t, "a") * 10),
-			"s":  rapid.SampledFrom([]string{"x", "xy", "z"}).Draw(t, "s"),
-			"f":  rapid.Bool().Draw(t, "f"),
-			"n":  nested,
+			"id":   float64(i + 1),
+			"a":    float64(rapid.IntRange(0, 4).Draw(t, "a") * 10),
+			"s":    rapid.SampledFrom([]string{"x", "xy", "z"}).Draw(t, "s"),
+			"f":    rapid.Bool().Draw(t, "f"),
+			"n":    nested,
+			"tags": tags,
+			"grid": grid,
 		})
 	}
 	nu := rapid.IntRange(0, 3).Draw(t, "nu")
@@ -61,7 +72,23 @@ func faultDoc(t *rapid.T) map[string]any {
 	for i := 0; i < nu; i++ {
 		us = append(us, map[string]any{"id": float64(rapid.IntRange(1, 4).Draw(t, "uid")), "b": rapid.SampledFrom([]string{"k", "m"}).Draw(t, "b"), "g": rapid.Bool().Draw(t, "g")})
 	}
-	return map[string]any{"t": rows, "u": us, "meta": map[string]any{"ip": "10.0.0.1"}}
+	dups := []any{}
+	for i := 0; i < rapid.IntRange(0, 5).Draw(t, "ndups"); i++ {
+		dups = append(dups, float64(rapid.IntRange(1, 3).Draw(t, "dup")))
+	}
+	objs := []any{}
+	for i := 0; i < rapid.IntRange(0, 4).Draw(t, "nobjs"); i++ {
+		objs = append(objs, map[string]any{"k": float64(rapid.IntRange(1, 2).Draw(t, "objk"))})
+	}
+	return map[string]any{"t": rows, "u": us, "meta": map[string]any{"ip": "10.0.0.1"}, "dups": dups, "objs": objs}
+}
+
+// selectorColumns are select-list items written in the selector language
+// (slices with open bounds, indexes, each, reshape, top-level functions).
+var selectorColumns = []string{
+	"`distinct=>tags` AS dt", "`tags[(1:end)]` AS sl1", "`tags[(begin:2)]` AS sl2", "`tags[(0:1)]` AS sl3", "`tags[0]` AS t0",
+	"`grid[each:0]` AS g0", "`grid[0]` AS gr0", "`n{v|string, w}` AS rs", "`n[0].v` AS v0", "`mix=>n[each].v` AS mx", "`n[(0:end)].w` AS ws",
+	"`distinct=>n[each].w` AS dw", "`grid[(0:end)]::[0]` AS cont",
 }
 
 func (b *fqBuilder) selectItem(prefix string, nestedOK bool) string {
@@ -172,7 +199,8 @@ func genFaultQueryOpt(t *rapid.T, root string, asyncOK bool) faultQuery {
 	T, U := root+"t", root+"u"
 	for attempt := 0; ; attempt++ {
 		b := &fqBuilder{t: t, root: root, asyncOK: asyncOK}
-		shape := rapid.SampledFrom([]string{"simple", "derived", "cte", "cte_chain", "group_having", "union", "join", "modifiers", "star", "nested_sub"}).Draw(t, "shape")
+		shape := rapid.SampledFrom([]string{"simple", "derived", "cte", "cte_chain", "group_having", "union", "join", "modifiers", "star", "nested_sub",
+			"cte_union", "derived_with", "join_derived_with", "cte_direct", "join_on_func", "selector_cols", "selector_from"}).Draw(t, "shape")
 		var q string
 		open := false
 		switch shape {
@@ -214,6 +242,42 @@ func genFaultQueryOpt(t *rapid.T, root string, asyncOK bool) faultQuery {
 			if len(b.sites) == 0 {
 				s := b.next("select")
 				q = fmt.Sprintf("SELECT *, fid(%d, id) AS x%d FROM %s", s, s, T)
+			}
+		case "cte_union":
+			inner := b.simpleSelect(T)
+			s := b.next("union_branch")
+			q = fmt.Sprintf("WITH c AS (%s) SELECT * FROM c UNION ALL SELECT id, fid(%d, b) AS x%d FROM %s", inner, s, s, U)
+		case "derived_with":
+			q = fmt.Sprintf("SELECT * FROM (WITH c AS (%s) SELECT * FROM c) d", b.simpleSelect(T))
+		case "join_derived_with":
+			s1 := b.next("cte_in_derived_table")
+			s2 := b.next("cte_in_derived_table")
+			q = fmt.Sprintf("SELECT * FROM (WITH c1 AS (SELECT id, fid(%d, a) AS a FROM %s) SELECT id, a FROM c1) x JOIN (WITH c2 AS (SELECT fid(%d, id) AS id FROM %s) SELECT id FROM c2) y ON x.id = y.id", s1, T, s2, U)
+			open = true
+		case "cte_direct":
+			s := b.next("cte_read_through_selector")
+			q = fmt.Sprintf("WITH c AS (SELECT id, n, fid(%d, a) AS x%d FROM %s%s) SELECT v FROM `c.n`", s, s, T, b.where("", true))
+		case "join_on_func":
+			jt := rapid.SampledFrom([]string{"JOIN", "LEFT JOIN", "RIGHT JOIN", "PARALLEL JOIN", "PARALLEL LEFT JOIN", "STRAIGHT_JOIN"}).Draw(t, "jt")
+			op := rapid.SampledFrom([]string{"<=", "<", ">=", "!=", "="}).Draw(t, "jop")
+			s := b.next("join_on")
+			q = fmt.Sprintf("SELECT * FROM %s x %s %s y ON x.id %s y.id AND fid(%d, TRUE)", T, jt, U, op, s)
+			open = true
+		case "selector_cols":
+			cols := rapid.SliceOfNDistinct(rapid.SampledFrom(selectorColumns), 1, 3, func(s string) string { return s }).Draw(t, "selcols")
+			s := b.next("select")
+			q = fmt.Sprintf("SELECT id, %s, fid(%d, a) AS x%d FROM %s%s", strings.Join(cols, ", "), s, s, T, b.where("", true))
+		case "selector_from":
+			s := b.next("select")
+			switch rapid.SampledFrom([]string{"distinct_objs", "slice", "nested", "distinct_rows"}).Draw(t, "selfrom") {
+			case "distinct_objs":
+				q = fmt.Sprintf("SELECT fid(%d, k) AS y FROM `distinct=>%sobjs`", s, root)
+			case "slice":
+				q = fmt.Sprintf("SELECT id, fid(%d, a) AS y FROM `%st[(%s)]`", s, root, rapid.SampledFrom([]string{"0:end", "1:end", "begin:2", "begin:end"}).Draw(t, "slice"))
+			case "nested":
+				q = fmt.Sprintf("SELECT fid(%d, v) AS y FROM `%st[0].n`", s, root)
+			case "distinct_rows":
+				q = fmt.Sprintf("SELECT fid(%d, id) AS y FROM `distinct=>%st`", s, root)
 			}
 		case "nested_sub":
 			s := b.next("nested_subquery_where")
